@@ -592,6 +592,9 @@ def big_lines(tier, codecs=("snappy", "lz4")):
     if tier == "thorough":
         sizes += [(1 << 28) - 1, 1 << 28, (1 << 28) + 1, (12 << 20) + 3, (1 << 24) + 1, (1 << 26) - 1]
     lines = []
+    if "snappy" in codecs:
+        # more than 16 MiB without any match (period = n: pure noise): the five-byte literal header of snappy_emit_literal
+        lines.append(f"big snappy r {(17 << 20) + 3} {(17 << 20) + 3}")
     for codec in codecs:
         for n in sizes:
             kinds = [("z", 1), ("p", 40)] if n < (1 << 27) else [("z", 1)]
@@ -628,3 +631,36 @@ def judge_big(line, out):
     if d.get("lib") == "0":
         bad.append(f"carquet_{codec}_compress of a {n}-byte input ({kind}, period {per}): the reference decoder does not return the input")
     return bad, head
+
+
+def snappy_preamble_ref(s):
+    """carquet_snappy_get_uncompressed_length per the format: the varint (at most 5 bytes, value < 2^32) or None"""
+    v = 0
+    for i in range(5):
+        if i >= len(s):
+            return None
+        v |= (s[i] & 0x7F) << (7 * i)
+        if s[i] < 0x80:
+            return v if v < 1 << 32 else None
+    return None
+
+
+def slen_lines(rng, tier):
+    """inputs for carquet_snappy_get_uncompressed_length: canonical and padded varints of boundary values, every
+    truncation, overflowing fifth bytes, six-byte forms, followed by arbitrary bytes or nothing"""
+    vals = [0, 1, 127, 128, 255, 16383, 16384, (1 << 21) - 1, 1 << 21, (1 << 28) - 1, 1 << 28, (1 << 31), (1 << 32) - 1] + \
+           [rng.getrandbits(rng.randrange(1, 33)) for _ in range(40 if tier == "quick" else 400)]
+    res = [b"", b"\x80", b"\xff\xff\xff\xff", b"\x80\x80\x80\x80\x10", b"\xff\xff\xff\xff\x0f", b"\xff\xff\xff\xff\x10",
+           b"\xff\xff\xff\xff\x7f", b"\x80\x80\x80\x80\x80\x00", b"\x80\x80\x80\x80\x8f", b"\x80\x80\x80\x80\x00"]
+    for v in vals:
+        for pad in (0, 1, 2, 4):
+            e = varint(v, pad)
+            tail = bytes(rng.getrandbits(8) for _ in range(rng.choice([0, 0, 1, 5])))
+            res.append(e + tail)
+            for k in range(len(e)):
+                res.append(e[:k])
+    seen = set(); out = []
+    for r in res:
+        if r not in seen:
+            seen.add(r); out.append("slen " + (r.hex() if r else "-"))
+    return out
